@@ -20,6 +20,8 @@ var (
 	ErrNoMaster      = errors.New("no alive master found")
 	ErrManyMasters   = errors.New("more than one master found")
 	ErrNoActiveNodes = errors.New("no active nodes found")
+	// ErrManagerLockLost is returned by performSwitchover when a lock re-check fails
+	ErrManagerLockLost = errors.New("manger lock lost during switchover, new manager should finish the process, leaving")
 )
 
 const (
